@@ -62,6 +62,21 @@ def graph_snapshot(self):
     return nodes, edges
 
 
+def query_snapshot(cd):
+    """what the diagram's public query methods answer for every class (a derived view must not change these either)"""
+    from krrood.class_diagrams.class_diagram import Association, Inheritance
+    out = []
+    for w in sorted(cd.wrapped_classes, key=lambda w: w.clazz.__qualname__):
+        oe = sorted((type(e).__name__, e.target.clazz.__qualname__, getattr(getattr(e, "field", None), "field", None) and e.field.field.name or "")
+                    for e in cd.get_out_edges(w.clazz))
+        og = sorted((type(e).__name__, e.target.clazz.__qualname__) for e in cd.get_outgoing_relations(w.clazz))
+        nb = sorted(n.clazz.__qualname__ for n in cd.get_outgoing_neighbors_with_relation_type(w.clazz, Association))
+        inh = sorted(n.clazz.__qualname__ for n in cd.get_incoming_neighbors_with_relation_type(w.clazz, Inheritance))
+        rt = cd.get_role_taker_associations_of_cls(w.clazz)
+        out.append((w.clazz.__qualname__, oe, og, nb, inh, rt.field.field.name if rt else None))
+    return out
+
+
 def unchanged(self, OLD):
     EVALS["n"] += 1
     return graph_snapshot(self) == OLD.before
@@ -247,17 +262,19 @@ def run(case, ctx):
                 problems.append(f"diagram lacks fields {sorted(missing_fields)[:4]}")
         # read-only / derived-view operations under contracts
         before = graph_snapshot(cd)
+        qbefore = query_snapshot(cd)
         evals0 = EVALS["n"]
         wcs = cd.wrapped_classes
         try:
             for op in case["ops"]:
                 w = wcs[case["arg"] % len(wcs)]
-                if op == "subdiagram":
-                    sub = cd.to_subdiagram_without_inherited_associations()
+                if op in ("subdiagram", "subdiagram_names"):
+                    sub = cd.to_subdiagram_without_inherited_associations(op == "subdiagram_names")
                     if sub is cd:
                         problems.append("to_subdiagram_without_inherited_associations returned the diagram itself")
-                elif op == "subdiagram_names":
-                    cd.to_subdiagram_without_inherited_associations(True)
+                    # use the derived view: its answers must not leak into the diagram it was derived from
+                    query_snapshot(sub)
+                    C["derived_views_queried"] += 1
                 elif op in ("rxtree", "rxtree_assoc"):
                     try:
                         cd._build_rxnode_tree(op == "rxtree_assoc")
@@ -294,11 +311,15 @@ def run(case, ctx):
             problems.append(f"read-only operation {op} raised {type(e).__name__}: {e}"[:200])
         C["contract_evaluations"] += EVALS["n"] - evals0
         after = graph_snapshot(cd)
+        qafter = query_snapshot(cd)
+        if qafter != qbefore:
+            diff = [(a[0]) for a, b in zip(qbefore, qafter) if a != b]
+            problems.append(f"answers of the diagram's query methods changed after read-only operations {case['ops']} for classes {diff[:4]}")
         if after != before:
             lost = [e for e in before[1] if e not in after[1]]
             problems.append(f"diagram changed by read-only operations {case['ops']}: lost edges {lost[:4]}")
         key = None
-        if problems and all(("contract" in p or "changed by read-only" in p) for p in problems) and \
+        if problems and all(("contract" in p or "changed by read-only" in p or "query methods changed" in p) for p in problems) and \
                 any(o.startswith("subdiagram") for o in case["ops"]):
             key = "subdiagram-mutates-original"
         if problems:
